@@ -123,3 +123,211 @@ Proof.
     + exists 2%nat, true. split; [lra|]. split; [auto|]. split; [exact Hin|]. rewrite bcoord_seg. cbn [nthv]. lra.
     + exists 2%nat, false. split; [lra|]. split; [auto|]. split; [exact Hin|]. rewrite bcoord_seg. cbn [nthv]. lra.
 Qed.
+
+(** ** 2. the faces of convert_box_to_face are the coordinate faces *)
+Lemma on_face_rect (T : Pose R) (sz : V3R) (i : nat) (positive : bool) fc f0 f1 fl0 fl1 (x : V3R) :
+  is_rotation (rot T) -> (i < 3)%nat ->
+  box_face T sz i positive = (fc, f0, f1, fl0, fl1) ->
+  on_face_coord T sz i positive x -> rectangle_set fc f0 f1 fl0 fl1 x.
+Proof.
+  intros HR Hi. unfold box_face. rewrite half_eq, half_R. ops_R.
+  destruct i as [|[|[|i]]]; [| | |exfalso; repeat apply Nat.succ_lt_mono in Hi; inversion Hi];
+    intros H; apply pair5_eq in H; destruct H as (<- & <- & <- & <- & <-);
+    intros ((K0 & K1 & K2) & Hk); cbn [nthv] in *.
+  - exists (bcoord T 1 x), (bcoord T 2 x). split; [exact K1|]. split; [exact K2|].
+    etransitivity; [apply (bcoord_expand T x HR)|]. rewrite Hk.
+    generalize (bcoord T 1 x) (bcoord T 2 x). intros k1 k2. destruct positive; veq.
+  - exists (bcoord T 0 x), (bcoord T 2 x). split; [exact K0|]. split; [exact K2|].
+    etransitivity; [apply (bcoord_expand T x HR)|]. rewrite Hk.
+    generalize (bcoord T 0 x) (bcoord T 2 x). intros k1 k2. destruct positive; veq.
+  - exists (bcoord T 0 x), (bcoord T 1 x). split; [exact K0|]. split; [exact K1|].
+    etransitivity; [apply (bcoord_expand T x HR)|]. rewrite Hk.
+    generalize (bcoord T 0 x) (bcoord T 1 x). intros k1 k2. destruct positive; veq.
+Qed.
+
+(** the face axes are two pose columns and the face lengths two of the sizes *)
+Lemma box_face_props (T : Pose R) (sz : V3R) (i : nat) (positive : bool) fc f0 f1 fl0 fl1 (P : R -> Prop) :
+  is_rotation (rot T) -> P (vx sz) -> P (vy sz) -> P (vz sz) ->
+  box_face T sz i positive = (fc, f0, f1, fl0, fl1) ->
+  dot f0 f0 = 1 /\ dot f1 f1 = 1 /\ dot f0 f1 = 0 /\ P fl0 /\ P fl1.
+Proof.
+  intros HR Px Py Pz. apply is_rotation_cols in HR. destruct HR as (U0 & U1 & U2 & U01 & U02 & U12).
+  unfold box_face.
+  destruct i as [|[|i]]; intros H; apply pair5_eq in H; destruct H as (_ & <- & <- & <- & <-); auto 8.
+Qed.
+
+(** *** (1) boundary crossing, in terms of the sets: a segment from a point of the box to a point
+        outside it contains a point of the box that lies on one of the six faces *)
+Definition box_face_set (T : Pose R) (sz : V3R) (i : nat) (positive : bool) : set3 :=
+  let '(fc, f0, f1, fl0, fl1) := box_face T sz i positive in rectangle_set fc f0 f1 fl0 fl1.
+
+Lemma on_face_set (T : Pose R) (sz : V3R) (i : nat) (positive : bool) (x : V3R) :
+  is_rotation (rot T) -> (i < 3)%nat -> on_face_coord T sz i positive x -> box_face_set T sz i positive x.
+Proof.
+  intros HR Hi Hx. unfold box_face_set.
+  destruct (box_face T sz i positive) as [[[[fc f0] f1] fl0] fl1] eqn:EF.
+  exact (on_face_rect T sz i positive _ _ _ _ _ x HR Hi EF Hx).
+Qed.
+
+Lemma box_exit (T : Pose R) (sz p q : V3R) :
+  is_rotation (rot T) -> box_of T sz p -> ~ box_of T sz q ->
+  exists tau i positive, 0 <= tau < 1 /\ (i < 3)%nat /\
+    box_of T sz (seg_at p q tau) /\ box_face_set T sz i positive (seg_at p q tau).
+Proof.
+  intros HR Hp Hq. apply (box_of_inbox T sz p HR) in Hp.
+  assert (Hq' : ~ inbox T sz q) by (intros H; apply Hq; apply box_of_inbox; assumption).
+  destruct (box_exit_coord T sz p q Hp Hq') as (tau & i & positive & Ht & Hi & Hf).
+  exists tau, i, positive. split; [exact Ht|]. split; [exact Hi|]. split.
+  - apply box_of_inbox; [exact HR|exact (proj1 Hf)].
+  - apply on_face_set; assumption.
+Qed.
+
+(** *** (2) a point outside the box is at least as close to some face as to any point of the box *)
+Lemma seg_at_closer (x y : V3R) (tau : R) : 0 <= tau < 1 -> norm (vsub x (seg_at y x tau)) <= norm (vsub x y).
+Proof.
+  intros Ht. replace (vsub x (seg_at y x tau)) with (vscale (1 - tau) (vsub x y)) by (unfold seg_at; veq).
+  rewrite norm_scale, Rabs_pos_eq by lra. pose proof (norm_nonneg (vsub x y)). nra.
+Qed.
+
+Lemma outside_point_face_closer (T : Pose R) (sz x y : V3R) :
+  is_rotation (rot T) -> ~ box_of T sz x -> box_of T sz y ->
+  exists i positive y', (i < 3)%nat /\ box_face_set T sz i positive y' /\ norm (vsub x y') <= norm (vsub x y).
+Proof.
+  intros HR Hx Hy. destruct (box_exit T sz y x HR Hy Hx) as (tau & i & positive & Ht & Hi & _ & Hf).
+  exists i, positive, (seg_at y x tau). split; [exact Hi|]. split; [exact Hf|]. apply seg_at_closer. exact Ht.
+Qed.
+
+(** *** (3) a convex set with a point outside the box: every (point of the set, point of the box) pair is
+        dominated by a (point of the set, point of a face) pair *)
+Lemma face_pair_closer (A : set3) (T : Pose R) (sz v x y : V3R) :
+  is_rotation (rot T) -> convex A -> A v -> ~ box_of T sz v -> A x -> box_of T sz y ->
+  exists i positive x' y', (i < 3)%nat /\ A x' /\ box_face_set T sz i positive y' /\
+                           norm (vsub x' y') <= norm (vsub x y).
+Proof.
+  intros HR HA Hv Hvo Hx Hy.
+  destruct (inbox_dec T sz x) as [Hin|Hout].
+  - apply (box_of_inbox T sz x HR) in Hin.
+    destruct (box_exit T sz x v HR Hin Hvo) as (tau & i & positive & Ht & Hi & _ & Hf).
+    exists i, positive, (seg_at x v tau), (seg_at x v tau). split; [exact Hi|]. split; [|split; [exact Hf|]].
+    + replace (seg_at x v tau) with (vadd (vscale (1 - tau) x) (vscale tau v)) by (unfold seg_at; veq).
+      apply HA; auto. lra.
+    + rewrite norm_sub_self. apply norm_nonneg.
+  - assert (Hxo : ~ box_of T sz x) by (intros H; apply Hout; apply box_of_inbox; assumption).
+    destruct (outside_point_face_closer T sz x y HR Hxo Hy) as (i & positive & y' & Hi & Hf & Hle).
+    exists i, positive, x, y'. auto.
+Qed.
+
+(** ** 3. the loops *)
+(** [scan] with a break test on the NEW best: above the break level the result is below every candidate *)
+Lemma scan_min_new (brk : R3R -> R3R -> R3R -> bool) (K : R) (cands : list R3R) (best : R3R) :
+  (forall c old new, brk c old new = true -> rd new <= K) ->
+  K < rd (scan brk cands best) -> forall c, In c cands -> rd (scan brk cands best) <= rd c.
+Proof.
+  intros Hbrk. revert best. induction cands as [|c cs IH]; intros best HK x Hx; [destruct Hx|].
+  cbn [scan] in *. ops_R.
+  set (best' := if Rltb (rd c) (rd best) then c else best) in *.
+  assert (Hb' : rd best' <= rd c /\ rd best' <= rd best).
+  { unfold best'. destruct (Rltb (rd c) (rd best)) eqn:E; rb_hyp E; lra. }
+  destruct (brk c best best') eqn:Eb.
+  - apply Hbrk in Eb. lra.
+  - destruct Hx as [<-|Hx].
+    + pose proof (scan_le_best brk cs best'). lra.
+    + apply IH; assumption.
+Qed.
+
+Lemma box_inside_none (T : Pose R) (sz : V3R) (eps : R) (vs : list V3R) :
+  box_inside T sz eps vs = None -> forall v, In v vs -> eps < fst (point_to_box v T sz).
+Proof.
+  induction vs as [|v rest IH]; [intros _ v []|].
+  change (box_inside T sz eps (v :: rest)) with
+    (let '(d, cpb) := point_to_box v T sz in
+     if leb (Ops:=ROps) d eps then Some (d, v, cpb) else box_inside T sz eps rest).
+  destruct (point_to_box v T sz) as [d cpb] eqn:E. ops_R. rb_case; [discriminate|].
+  intros H x [<-|Hx]; [rewrite E; cbn [fst]; lra|auto].
+Qed.
+
+(** a point whose point_to_box distance is positive is outside the box *)
+Lemma point_to_box_outside (T : Pose R) (sz v : V3R) :
+  is_rotation (rot T) -> 0 <= vx sz -> 0 <= vy sz -> 0 <= vz sz ->
+  0 < fst (point_to_box v T sz) -> ~ box_of T sz v.
+Proof.
+  intros HR Sx Sy Sz Hd Hin. destruct (point_to_box v T sz) as [d cp] eqn:E. cbn [fst] in Hd.
+  pose proof (point_to_box_optimal v T sz d cp HR Sx Sy Sz E v Hin) as H. rewrite norm_sub_self in H. lra.
+Qed.
+
+(** ** 4. rectangle_to_box *)
+(** the band exclusions of [rectangle_to_rectangle_optimal] for the face [(i, positive)]:
+    the parallel tests of _line_intersects_rectangle for the rectangle axes against the face normal
+    and for the face axes against the rectangle normal *)
+Definition face_band (a0 a1 : V3R) (T : Pose R) (sz : V3R) (i : nat) (positive : bool) : Prop :=
+  let '(fc, f0, f1, fl0, fl1) := box_face T sz i positive in
+  (let n2 := cross f0 f1 in
+   (dot n2 a0 = 0 \/ eps6 < Rabs (dot n2 a0)) /\ (dot n2 a1 = 0 \/ eps6 < Rabs (dot n2 a1))) /\
+  (let n1 := cross a0 a1 in
+   (dot n1 f0 = 0 \/ eps6 < Rabs (dot n1 f0)) /\ (dot n1 f1 = 0 \/ eps6 < Rabs (dot n1 f1))).
+
+(** [0 <= eps] is needed: with a negative [eps] a rectangle lying entirely inside the box passes the
+    vertex loop and the face scan returns a positive distance. *)
+Theorem rectangle_to_box_optimal (rc a0 a1 : V3R) (l0 l1 : R) (T : Pose R) (sz : V3R) (eps : R) d p1 p2 :
+  dot a0 a0 = 1 -> dot a1 a1 = 1 -> dot a0 a1 = 0 ->
+  0 <= l0 -> 0 <= l1 -> eps6 <= l0 * l0 -> eps6 <= l1 * l1 ->
+  is_rotation (rot T) -> 0 <= vx sz -> 0 <= vy sz -> 0 <= vz sz ->
+  eps6 <= vx sz * vx sz -> eps6 <= vy sz * vy sz -> eps6 <= vz sz * vz sz ->
+  0 <= eps ->
+  (forall i positive, face_band a0 a1 T sz i positive) ->
+  rectangle_to_box rc a0 a1 l0 l1 T sz eps = (d, p1, p2) ->
+  d = 0 \/ (eps < d /\ eps6 <= d) ->
+  optimal (rectangle_set rc a0 a1 l0 l1) (box_of T sz) d.
+Proof.
+  intros U0 U1 U01 H0 H1 L0 L1 HR Sx Sy Sz Lx Ly Lz He HB E [->|[Hd Hd6]]; [apply optimal_zero|].
+  unfold rectangle_to_box, rectangle_to_box_full in E.
+  match type of E with context [match ?X with Some _ => _ | None => _ end] =>
+    change X with (box_inside T sz eps (rectangle_vertices rc a0 a1 l0 l1)) in E end.
+  destruct (box_inside T sz eps (rectangle_vertices rc a0 a1 l0 l1)) as [r|] eqn:EI.
+  - cbn [fst] in E. apply box_inside_le in EI. rewrite E in EI. change (rd (d, p1, p2)) with d in EI. lra.
+  - cbn [fst] in E. cbv zeta in E.
+    match type of E with scan ?b ?cP (scan _ ?cN _) = _ =>
+      set (brk := b) in *; set (candsP := cP) in *; set (candsN := cN) in * end.
+    assert (Hbrk : forall c old new : R3R, brk c old new = true -> rd new <= eps).
+    { intros c old new Hc. unfold brk in Hc. apply andb_true_iff in Hc. destruct Hc as [_ Hc]. ops_R. rb_hyp Hc. exact Hc. }
+    assert (HP : forall c, In c candsP -> d <= rd c).
+    { intros c Hc. pose proof (scan_min_new brk eps candsP (scan brk candsN init_best) Hbrk) as M.
+      rewrite E in M. change (rd (d, p1, p2)) with d in M. apply M; assumption. }
+    assert (HN : forall c, In c candsN -> d <= rd c).
+    { intros c Hc. pose proof (scan_le_best brk candsP (scan brk candsN init_best)) as Le.
+      rewrite E in Le. change (rd (d, p1, p2)) with d in Le.
+      pose proof (scan_min_new brk eps candsN init_best Hbrk ltac:(lra) c Hc). lra. }
+    (* every face: the returned distance is a lower bound for (rectangle, face) *)
+    assert (Hface : forall i positive, (i < 3)%nat ->
+              optimal (rectangle_set rc a0 a1 l0 l1) (box_face_set T sz i positive) d).
+    { intros i positive Hi.
+      assert (Hle : d <= rd (let '(fc, f0, f1, fl0, fl1) := box_face T sz i positive in
+                             rectangle_to_rectangle rc a0 a1 l0 l1 fc f0 f1 fl0 fl1 eps)).
+      { assert (Hin : In i [0%nat; 1%nat; 2%nat]).
+        { destruct i as [|[|[|i]]]; [simpl; auto|simpl; auto|simpl; auto|].
+          exfalso. repeat apply Nat.succ_lt_mono in Hi. inversion Hi. }
+        destruct positive; [apply HP|apply HN]; unfold candsP, candsN;
+          apply (in_map (fun i => let '(fc, f0, f1, fl0, fl1) := box_face T sz i _ in
+                                  rectangle_to_rectangle rc a0 a1 l0 l1 fc f0 f1 fl0 fl1 eps)); exact Hin. }
+      pose proof (HB i positive) as B. unfold face_band in B. unfold box_face_set.
+      destruct (box_face T sz i positive) as [[[[fc f0] f1] fl0] fl1] eqn:EF.
+      destruct (rectangle_to_rectangle rc a0 a1 l0 l1 fc f0 f1 fl0 fl1 eps) as [[d' q1] q2] eqn:ER.
+      change (rd (d', q1, q2)) with d' in Hle. destruct B as [B1 B2].
+      destruct (box_face_props T sz i positive _ _ _ _ _ (fun s => 0 <= s /\ eps6 <= s * s) HR
+                  (conj Sx Lx) (conj Sy Ly) (conj Sz Lz) EF) as (V0 & V1 & V01 & [F0 M0] & [F1 M1]).
+      assert (Hopt : optimal (rectangle_set rc a0 a1 l0 l1) (rectangle_set fc f0 f1 fl0 fl1) d').
+      { apply (rectangle_to_rectangle_optimal rc a0 a1 l0 l1 fc f0 f1 fl0 fl1 eps d' q1 q2); auto.
+        right. split; lra. }
+      intros x y Hx Hy. pose proof (Hopt x y Hx Hy). lra. }
+    (* a vertex outside the box *)
+    assert (Hv : exists v, rectangle_set rc a0 a1 l0 l1 v /\ ~ box_of T sz v).
+    { assert (Hex : exists v, In v (rectangle_vertices rc a0 a1 l0 l1))
+        by (unfold rectangle_vertices; cbn [map]; eexists; left; reflexivity).
+      destruct Hex as (v & Hin). exists v. split; [apply rect_vertex_in; assumption|].
+      apply point_to_box_outside; auto. pose proof (box_inside_none T sz eps _ EI v Hin). lra. }
+    destruct Hv as (v & Hvr & Hvo).
+    intros x y Hx Hy.
+    destruct (face_pair_closer (rectangle_set rc a0 a1 l0 l1) T sz v x y HR (rectangle_convex _ _ _ _ _) Hvr Hvo Hx Hy)
+      as (i & positive & x' & y' & Hi & Hx' & Hy' & Hle).
+    pose proof (Hface i positive Hi x' y' Hx' Hy'). lra.
+Qed.
